@@ -3,7 +3,8 @@
 
    A case is one named type: its kind, the line classes of its doc comment and, for structs, a field pattern.
    Line classes: plain, quotes, backslash, backquote, percent (%v %%), atname (@name inside the line), unicode, blank
-   (an empty // line, interior only), namefirst (the line starts with the type's own name), tagplus (+k=v) and tagat
+   (an empty // line, interior only), namefirst (the line starts with the type's own name), namedouble (... and the text after
+   the name starts with the name again), tagplus (+k=v) and tagat
    (@k v) - the last two are tag lines and never part of the documentation.
    The harness writes real Go source for the case (recording the text of every line, and that text with a leading type
    name removed), runs the real generator through gengo, compiles the package with a probe program and records what
